@@ -280,3 +280,34 @@ Proof.
   - destruct (gen_msg code) as [k|] eqn:Eg; [discriminate|]. intros snret.
     rewrite gen_error_string, En, Eg. reflexivity.
 Qed.
+
+(* ---- sc_mpi_sizeof in the configuration WITH MPI (translated from the same source against OpenMPI's mpi.h) ----
+   There the predefined datatype handles are the addresses of 15 global objects.  For ANY placement of these objects at
+   pairwise different addresses (base 0 .. base 14, in the order of the table of MpiSpec1.v) the MPI-enabled sc_mpi_sizeof
+   gives, for the k-th handle, what the serial sc_mpi_sizeof gives for the k-th serial handle, i.e. MPI_Type_size. *)
+Definition serial_handles : list Z := map fst dt_table.
+
+Ltac cmp base inj :=
+  repeat match goal with
+  | |- context [base ?i =? base ?i] => rewrite (Z.eqb_refl (base i))
+  | |- context [base ?i =? base ?j] =>
+      replace (base i =? base j) with false
+        by (symmetry; apply Z.eqb_neq; let E := fresh in intros E; apply inj in E; [discriminate E | lia | lia])
+  end.
+
+Theorem gen_sizeof_mpi (base : Z -> Z) :
+  (forall i j, 0 <= i < 15 -> 0 <= j < 15 -> base i = base j -> i = j) ->
+  forall k, 0 <= k < 15 ->
+  sc_mpi_sizeof_mpi (base k) (base 0) (base 1) (base 2) (base 3) (base 4) (base 5) (base 6) (base 7) (base 8) (base 9)
+                    (base 10) (base 11) (base 12) (base 13) (base 14)
+  = sc_mpi_sizeof (nth (Z.to_nat k) serial_handles 0) /\
+  valid_dt (nth (Z.to_nat k) serial_handles 0) /\
+  sc_mpi_sizeof (nth (Z.to_nat k) serial_handles 0) = type_size (nth (Z.to_nat k) serial_handles 0).
+Proof.
+  intros inj k Hk.
+  assert (Hc : k = 0 \/ k = 1 \/ k = 2 \/ k = 3 \/ k = 4 \/ k = 5 \/ k = 6 \/ k = 7 \/ k = 8 \/ k = 9 \/ k = 10 \/ k = 11 \/
+               k = 12 \/ k = 13 \/ k = 14) by lia.
+  repeat (destruct Hc as [->|Hc]); try subst k;
+    (split; [unfold sc_mpi_sizeof_mpi; cmp base inj; vm_compute; reflexivity|]);
+    (split; [eexists; vm_compute; reflexivity | vm_compute; reflexivity]).
+Qed.
